@@ -226,7 +226,7 @@ fn check_stmt(v: &Verdicts, sink: &mut Sink, src: &str, w: Option<usize>, known:
             }
         },
         "C08" => {
-            if matches!(&reparsed, Ok(b) if *b == a) {
+            if reparsed.is_ok() {
                 match fmt_one(&f1, w) {
                     Ok(Ok(f2)) => {
                         if f2 != f1 {
@@ -297,7 +297,7 @@ fn check_program(v: &Verdicts, sink: &mut Sink, src: &str, w: Option<usize>, cla
             }
         },
         "C08" => {
-            if matches!(parse_program(&f1), Ok(b) if b == a) {
+            if parse_program(&f1).is_ok() {
                 if let Ok(f2) = format_source_lib(&f1, w) {
                     if f2 != f1 {
                         sink.viol(&format!("not-idempotent program class={} w={}", class, wcls(w)), "formatting the formatter's output changes it (library driver)", json!({"source": src, "width": w, "first": f1, "second": f2, "origin": origin}));
@@ -341,7 +341,7 @@ fn check_program(v: &Verdicts, sink: &mut Sink, src: &str, w: Option<usize>, cla
                 }
             },
             "C08" => {
-                if matches!(parse_program(&cf1), Ok(b) if b == a) {
+                if parse_program(&cf1).is_ok() {
                     if let Some(cf2) = cli_format(cli, &cf1) {
                         if cf2 != cf1 {
                             sink.viol(&format!("not-idempotent program class={} driver=cli", class), "`blots --format` twice differs from once", json!({"source": src, "first": cf1, "second": cf2}));
@@ -396,11 +396,13 @@ pub enum CClass {
     P5bListAfterCommaSameLine,
     P6ListBeforeClose,
     P7ListLastItemEol,
+    P7bListLastItemEolThenOwnLine,
     P8RecAfterOpen,
     P9RecAfterCommaOwnLine,
     P9bRecAfterCommaSameLine,
     P10RecBeforeClose,
     P11RecLastItemEol,
+    P11bRecLastItemEolThenOwnLine,
     P12DoAfterOpen,
     P13DoBeforeStmt,
     P14DoBeforeReturn,
@@ -414,10 +416,10 @@ pub enum CClass {
     Q8AfterRecColon,
 }
 
-pub const CCLASSES: [CClass; 24] = [
+pub const CCLASSES: [CClass; 26] = [
     CClass::P1OwnLineBeforeStmt, CClass::P2StmtEol, CClass::P3OwnLineAtEnd, CClass::P4ListAfterOpen, CClass::P5ListAfterCommaOwnLine,
-    CClass::P5bListAfterCommaSameLine, CClass::P6ListBeforeClose, CClass::P7ListLastItemEol, CClass::P8RecAfterOpen,
-    CClass::P9RecAfterCommaOwnLine, CClass::P9bRecAfterCommaSameLine, CClass::P10RecBeforeClose, CClass::P11RecLastItemEol,
+    CClass::P5bListAfterCommaSameLine, CClass::P6ListBeforeClose, CClass::P7ListLastItemEol, CClass::P7bListLastItemEolThenOwnLine, CClass::P8RecAfterOpen,
+    CClass::P9RecAfterCommaOwnLine, CClass::P9bRecAfterCommaSameLine, CClass::P10RecBeforeClose, CClass::P11RecLastItemEol, CClass::P11bRecLastItemEolThenOwnLine,
     CClass::P12DoAfterOpen, CClass::P13DoBeforeStmt, CClass::P14DoBeforeReturn, CClass::P15DoStmtEol, CClass::Q1CallArgs,
     CClass::Q2AfterInfixOp, CClass::Q3BeforeInfixOp, CClass::Q4CondParts, CClass::Q5AfterArrow, CClass::Q6InsideParens, CClass::Q8AfterRecColon,
 ];
@@ -450,6 +452,10 @@ fn inject(stmts: &[H], cls: CClass, r: &mut Rng, every: bool) -> (String, usize)
                 // a same-line comment must be followed by a line break before the closer
                 if pending_close_newline && matches!(g, Gap::BeforeListClose | Gap::BeforeRecClose) {
                     pending_close_newline = false;
+                    if matches!(cls, CClass::P7bListLastItemEolThenOwnLine | CClass::P11bRecLastItemEolThenOwnLine) {
+                        n += 2;
+                        return Some(format!("\n  // own{}_{}a\n  // own{}_{}b\n", si, n, si, n));
+                    }
                     return Some("\n".to_string());
                 }
                 let hit = match (cls, g) {
@@ -457,12 +463,12 @@ fn inject(stmts: &[H], cls: CClass, r: &mut Rng, every: bool) -> (String, usize)
                     (CClass::P5ListAfterCommaOwnLine, Gap::AfterListComma) => Some(1),
                     (CClass::P5bListAfterCommaSameLine, Gap::AfterListComma) => Some(2),
                     (CClass::P6ListBeforeClose, Gap::BeforeListClose) => Some(3),
-                    (CClass::P7ListLastItemEol, Gap::ListLastItemEol) => Some(4),
+                    (CClass::P7ListLastItemEol | CClass::P7bListLastItemEolThenOwnLine, Gap::ListLastItemEol) => Some(4),
                     (CClass::P8RecAfterOpen, Gap::AfterRecOpen) => Some(1),
                     (CClass::P9RecAfterCommaOwnLine, Gap::AfterRecComma) => Some(1),
                     (CClass::P9bRecAfterCommaSameLine, Gap::AfterRecComma) => Some(2),
                     (CClass::P10RecBeforeClose, Gap::BeforeRecClose) => Some(3),
-                    (CClass::P11RecLastItemEol, Gap::RecLastItemEol) => Some(4),
+                    (CClass::P11RecLastItemEol | CClass::P11bRecLastItemEolThenOwnLine, Gap::RecLastItemEol) => Some(4),
                     (CClass::P12DoAfterOpen, Gap::DoAfterOpen) => Some(5),
                     (CClass::P13DoBeforeStmt, Gap::DoBeforeStmt) => Some(6),
                     (CClass::P14DoBeforeReturn, Gap::DoBeforeReturn) => Some(6),
@@ -630,8 +636,8 @@ pub fn run(which: &str, ctx: &Ctx, sink: &mut Sink) {
 
     // ---- random programs (with comments and blank lines), library driver + CLI sample
     let n = match which {
-        "C09" => ctx.budget(1200, 40000),
-        _ => ctx.budget(1500, 60000),
+        "C09" => ctx.budget(12_000, 200_000),
+        _ => ctx.budget(16_000, 300_000),
     };
     for i in 0..n {
         if !ctx.mine(i) {
@@ -711,7 +717,7 @@ pub fn run(which: &str, ctx: &Ctx, sink: &mut Sink) {
             }
         }
         // ---- multi-class random decorations
-        let n2 = ctx.budget(300, 10000);
+        let n2 = ctx.budget(3000, 50_000);
         for i in 0..n2 {
             if !ctx.mine(i) {
                 continue;
